@@ -63,4 +63,15 @@ CHECKS = {
                  extra=FX_EXTRA, instrument=FX_INSTR),
         ],
     },
+    "C16": {
+        "level": "model_checking",
+        "engine": "E2",
+        "technique": "exhaustive enumeration of metric batch histories on the real storage vs reference registry (full Gather() comparison)",
+        "level_text": "Every history of 1-2 (thorough: up to 3) batches of 1-2 (thorough: 3) operation documents from a 21-operation alphabet (ungrouped add/set/observe, grouped add/set/expire, add/set shortcuts, integer and fractional values, label sets of different shape, names reused across groups and outside groups, six invalid variants), sent by two hooks through the real JSON parser and the real SendBatch; after every batch the complete Gather() output of the registry is compared with a reference registry written from the statement; an invalid operation must give an error and leave the registry untouched.",
+        "level_note": "Trusted: prometheus client (Gather), the reference registry in the harness. Identical series (same name and labels) reported under two different groups are left out of the space: an exposition cannot hold both and the statement does not say which wins.",
+        "rule": "product enumeration of batches from the alphabet x hooks; non-trivial = history of >= 2 batches; distinct = distinct final registry",
+        "parts": [
+            part("c16", "pkg/metric_storage", "TestVerifC16", ["zz_verif_c16_test.go"], shards={"quick": 8, "thorough": 16}),
+        ],
+    },
 }
